@@ -24,12 +24,15 @@ ASSUMED (TRUSTED beyond core's ledger) -- each with the reason it is outside Ver
   ArrayVec (struct), is_empty        model of read/util.rs (unsafe, MaybeUninit, raw pointers): a sequence bounded by ArrayLike::cap();
                                      K-AVEC k_avec_sequence_model_cap4 / k_avec_boxed_push_pop_cap4 (bounded)
   RegisterRuleMap::{get,set,clear}   bodies use iterator adapters (`iter().find`, `enumerate`) and `for &mut (..) in &mut *slice`; assumed
-                                     as a finite map with capacity; K-RRMAP k_rrmap_finite_map_cap2 (bounded, public API route)
+                                     as a finite map with capacity; K-RRMAP harnesses are written (kani/src/uctx.rs, public API route)
+                                     but time out under CBMC -> NOT discharged, not registered
   UnwindContext::{new_in,reset,row,row_mut,save_initial_rules,get_initial_rule,push_row,pop_row}
                                      bodies lean on ArrayVec's Deref<[T]> (`last_mut().unwrap()`, `self.stack[0]`, slice patterns on
                                      `registers.rules`, match guard with `ref` binding, `Default::default()`); assumed over the abstract
                                      context `abs()` which is DEFINED from the real fields (0 / 1 / many initial rules representation,
-                                     hidden bottom row), K-UCTX k_uctx_state_stack_cap4, k_uctx_reuse_equals_fresh (bounded)
+                                     hidden bottom row); K-UCTX harnesses k_uctx_state_stack_cap4 / k_uctx_reuse_equals_fresh are written
+                                     but time out under CBMC (decoder inside nested loops) -> NOT discharged, not registered; the
+                                     extraction-to-Kani route (DESIGN P24) is the way to discharge them
   `unsafe impl Structural for Vendor / Register` (prelude text in `common`): derived PartialEq on these two types is structural
                                      equality (needed for `vendor == Vendor::AArch64`); `#[derive(Structural)]` crashes this Verus build
   model text: ArrayLike::cap() for [T; N] and Box<[T; N]>, crate::AArch64::RA_SIGN_STATE (value read from arch.rs; the oracle uses
@@ -42,8 +45,8 @@ LOGGED REWRITES: R-GUARD on the `negate_ra_state if vendor == ..` match arm (Ver
 NOT DECIDED HERE
   * UnwindContext::initialize / UnwindTable::{new, new_for_cie, new_for_fde} are not extracted (CommonInformationEntry /
     FrameDescriptionEntry / UnwindSection belong to the C05 batch; a struct holding `&'ctx mut UnwindContext` built inside the
-    function is untested in this Verus build).  C20 for the context is carried by [C20:reset-fresh] / [C20:new-fresh] (assumed) and by
-    the bounded Kani harness k_uctx_reuse_equals_fresh, which runs the real `UnwindTable::new` (initialize) on a dirty context.
+    function is untested in this Verus build).  C20 for the context is carried only by the ASSUMED [C20:reset-fresh] / [C20:new-fresh];
+    the harness k_uctx_reuse_equals_fresh (real `UnwindTable::new` on a dirty context vs a fresh one) does not terminate under CBMC.
   * next_row == iterated cfa_step over the *decoded* stream (needs a spec-level decoder; the loop body is the composition of the two
     verified contracts); SetLoc under an .eh_frame pointer encoding (value owned by C05); acceptance clauses for SLEB128 operands and
     DW_CFA_set_loc (the reader layer has no acceptance clause for read_sleb128 / read_address).
